@@ -21,7 +21,19 @@ type AtomicValue[T any] struct {
 //
 // Using nil as the new value will result in panic.
 func (v *AtomicValue[T]) CompareAndSwap(old, new T) (swapped bool) {
-	return v.atom.CompareAndSwap(old, new)
+	for {
+		if v.atom.CompareAndSwap(old, new) {
+			return true
+		}
+		// atomic.Value.CompareAndSwap also fails when the stored value is equal
+		// to old but was replaced, between its comparison and its swap, by
+		// another Store/Swap of an equal value (a different box). That is not a
+		// reason to report failure: only give up if the value really differs.
+		cur := v.atom.Load()
+		if cur == nil || cur != any(old) {
+			return false
+		}
+	}
 }
 
 // Load returns the value set by the most recent call to Store, or the zero value
